@@ -498,8 +498,10 @@ func Generate(seed uint64, opt GenOptions) *Scenario {
 					op.Ctx = "cancel"
 				case n < 8 && fDeadline:
 					op.Ctx = "deadline"
-				case fParent:
+				case n < 9 && fParent:
 					op.Ctx = "parent"
+				case fCancel:
+					op.Ctx = "cause"
 				}
 				if g.chance(faultRate) {
 					f := &Fault{Err: "canceled"}
